@@ -5,7 +5,7 @@
 (*               exc}   a Config built from cfg (text / dict / kwargs),    *)
 (*               decompiled to text and read back: obs = attributes after. *)
 (*  "unknown":  {exc}   an unknown setting name: must raise ValueError.    *)
-(*  "scenario": {scn, used, fp_obs, fp_ref, exc_obs, exc_ref}  the         *)
+(*  "scenario": {scn, used, fp_obs, fp_ref, exc_obs, exc_ref, ref_pure} the *)
 (*               scenario and its reference (governing value given through *)
 (*               the config string at creation) must be observationally    *)
 (*               equal (fp = interned projection of the parse result).     *)
@@ -44,6 +44,7 @@ Clause(r) ==
          (IF r.exc_obs # "none" \/ r.exc_ref # "none" THEN "exception_raised"
           ELSE IF ModelUsed(r.scn) # r.used THEN "model_precedence_mismatch"
           ELSE IF r.fp_obs # r.fp_ref THEN "effect_differs_from_config_string_at_creation"
+          ELSE IF ~r.ref_pure THEN "effect_of_the_setting_depends_on_earlier_calls"
           ELSE "ok")
 Verdict == phase \in {"codec", "unknown", "scenario"} => (Clause(Rec) = "ok" \/ PrintT(<<"FAIL", Rec.id, Clause(Rec)>>))
 AllConsumed ==
